@@ -4,6 +4,7 @@ import (
 	"fmt"
 	"sort"
 	"testing"
+	"time"
 
 	"github.com/honeycombio/refinery/verifharness/vkit"
 	"pgregory.net/rapid"
@@ -147,6 +148,7 @@ func keptLRUDontCare(c colCase, obs colObs, views map[string]*traceView) (dontCa
 	}
 	capPerWorker := (int(c.Cfg.KeptSize) + c.Cfg.Workers - 1) / c.Cfg.Workers
 	type ev struct {
+		at           time.Duration
 		op, sub, seq int
 		trace        string
 		decision     bool
@@ -155,7 +157,7 @@ func keptLRUDontCare(c colCase, obs colObs, views map[string]*traceView) (dontCa
 	for _, id := range sortedTraceIDs(views) {
 		v := views[id]
 		for _, a := range v.Accepted {
-			evs = append(evs, ev{op: a.OpIndex, sub: 1, trace: id})
+			evs = append(evs, ev{at: a.At, op: a.OpIndex, sub: 1, trace: id})
 		}
 		seen := map[int]bool{}
 		for _, f := range v.Forwarded {
@@ -164,11 +166,17 @@ func keptLRUDontCare(c colCase, obs colObs, views map[string]*traceView) (dontCa
 			}
 			if !seen[f.OpIndex] { // one kept decision per (trace, op)
 				seen[f.OpIndex] = true
-				evs = append(evs, ev{op: f.OpIndex, sub: 0, seq: f.Seq, trace: id, decision: true})
+				evs = append(evs, ev{at: f.At, op: f.OpIndex, sub: 0, seq: f.Seq, trace: id, decision: true})
 			}
 		}
 	}
+	// order of events: virtual time first (a span op may advance time before (late) or after (settle)
+	// handing its span over, so the op index alone does not order a decision against an arrival),
+	// then op order, then - same op, same instant - the tick's decisions before the span
 	sort.Slice(evs, func(i, j int) bool {
+		if evs[i].at != evs[j].at {
+			return evs[i].at < evs[j].at
+		}
 		if evs[i].op != evs[j].op {
 			return evs[i].op < evs[j].op
 		}
